@@ -108,6 +108,10 @@ def rand_matrix(ctx, rng, sym=None, fermionic=None, kind=None, dtype=None, squar
                 if min(b.shape) >= 2 and rng.random() < 0.7:
                     x.blocks[s] = _lowrank(npr, b.shape, dtype, rng.randint(1, min(b.shape) - 1))
                     feats.add("rank-deficient-block")
+    if rng.random() < 0.08:
+        x, hist_ = gen.identity_history(sr, rng, x)
+        if hist_:
+            feats.add("matrix-with-history")
     if fermionic:
         if nphase is None:
             nphase = rng.choice([0, 1, 2])
